@@ -134,6 +134,45 @@ def to_dist(rs):
         d["inadequate_schedule"] += not (m in ps and all(a < b for a, b in zip(ps, ps[1:])))
     return d
 
+def e2es_dist(rs):
+    d = {"scenarios": 0, "requests": 0, "signal_ms": {}, "inflight_at_signal": 0, "inflight_http2": 0, "inflight_with_body": 0,
+         "refused_after_signal": 0, "servers_completed_ok": {}}
+    for r in rs:
+        parts = [p.split() for p in r["input"].split(" ; ")]
+        if len(parts[0]) < 5:
+            continue
+        sig = int(parts[0][4])
+        d["scenarios"] += 1
+        d["signal_ms"][str(sig)] = d["signal_ms"].get(str(sig), 0) + 1
+        reqs = {q[0]: q for q in parts[1:] if len(q) == 15}
+        for o in r["obs"].split():
+            if o.startswith("srv="):
+                d["servers_completed_ok"][o[4:]] = d["servers_completed_ok"].get(o[4:], 0) + 1
+                continue
+            try:
+                i, rest = o.split("=", 1)
+                oc, n, f, st = rest.split("/")
+            except ValueError:
+                continue
+            d["requests"] += 1
+            q = reqs.get(i)
+            if st != "-" and int(st) < sig:
+                d["inflight_at_signal"] += 1
+                if q:
+                    d["inflight_http2"] += q[1] == "2"
+                    d["inflight_with_body"] += q[6] != "0" or q[10] != "0"
+            elif st == "-":
+                d["refused_after_signal"] += 1
+    return d
+
+E2ES_STREAM = {"name": "e2es", "quick": 400, "thorough": 30000, "sep": ";", "batch": 2000,
+               "nontrivial": lambda r: " ok/" in r["obs"] and "err:" in r["obs"], "distribution": e2es_dist}
+E2ES_RULE = (" | e2es: the e2e scenarios of C01 (real Client, four real Servers, HTTP/1.1 and HTTP/2, streamed request and response "
+             "bodies, handler delays, upgrades, TLS) with every server under with_graceful_shutdown and the signal resolving at 0-560 "
+             "virtual ms in the middle of the traffic: every request whose handler had been entered before the signal must get its "
+             "complete, correct response (signal during request body, handler, response head or response body, over HTTP/1.1 and "
+             "HTTP/2); every serving future must complete Ok; non-trivial = a scenario with both finished and refused requests")
+
 def e2e_nontrivial(r):
     return r["input"].count(";") >= 3
 
@@ -402,7 +441,7 @@ PROPS = {
             "theorems": ["Hd.Server.C07_signal_completes", "Hd.Server.C07_signal_first", "Hd.Server.C07_ended_stays", "Hd.Server.C07_no_accept_after",
                          "Hd.Server.C07_all_told", "Hd.Server.C07_idle_closed", "Hd.Server.C07_inflight_kept",
                          "Hd.Server.C07_inflight_completes", "Hd.Server.C07_partial_head_served", "Hd.Server.C07_completed_for_good", "Hd.Server.C07_never_served_after"],
-            "streams": [SRV_STREAM], "rule": SRV_RULE, "assumes": SRV_ASSUMES},
+            "streams": [SRV_STREAM, E2ES_STREAM], "rule": SRV_RULE + E2ES_RULE, "assumes": SRV_ASSUMES},
     "C09": {"props_module": "HdModel.Props.C09", "class_prefix": ["C09/"],
             "theorems": ["Hd.Server.C09_only_three_exits", "Hd.Server.C09_isolation", "Hd.Server.C09_cancelled_connect_harmless",
                          "Hd.Server.legitEnd_step", "Hd.Server.step_srv_cases", "Hd.Server.C09_faults_do_not_stop_service",
